@@ -238,7 +238,7 @@ func c11Eval(w *mc.W, cas c11Case) {
 }
 
 func runC11(c *mc.Ctx) {
-	c.Rule("blocks of n = 1..65 and n in {100,127,128,129,255,256,257,513(,1000,1025,4097)} distinct transactions; all 2^n subsets for n <= 14 (18 thorough) and for larger n the structured family {empty, full, singletons, adjacent pairs, prefixes, suffixes, right edge, alternating}; each (n, subset) through NewMerkleBlockWithTxnSet (two set orderings), NewMerkleBlockWithFilter and bloom.NewMerkleBlock, compared field by field with the reference partial-merkle-tree builder and extracted again; non-trivial = proper non-empty subsets")
+	c.Rule("blocks of n = 1..65 and n in {100,127,128,129,255,256,257,513,1025,4097(,1000,16385,65537)} distinct transactions; all 2^n subsets for n <= 14 (18 thorough) and for larger n the structured family {empty, full, singletons, adjacent pairs, prefixes, suffixes, right edge, alternating}; each (n, subset) through NewMerkleBlockWithTxnSet (two set orderings), NewMerkleBlockWithFilter and bloom.NewMerkleBlock, compared field by field with the reference partial-merkle-tree builder and extracted again; non-trivial = proper non-empty subsets")
 	c.Assume("SHA-256 and wire transaction hashing trusted; the 16384-byte x 10 filter has no false positives on <= 65 items (if one occurs the induced set is used and the event is counted)")
 	full := mc.Pick(c, 14, 18)
 	var cases []c11Case
@@ -281,9 +281,9 @@ func runC11(c *mc.Ctx) {
 		add(func(i int) bool { return i == n-1 || i == 0 })
 	}
 	// larger blocks (counter widths, deep right edges): structured subsets only
-	bigNs := []int{100, 127, 128, 129, 255, 256, 257, 513}
+	bigNs := []int{100, 127, 128, 129, 255, 256, 257, 513, 1025, 4097}
 	if c.Thorough() {
-		bigNs = append(bigNs, 1000, 1025, 4097)
+		bigNs = append(bigNs, 1000, 16385, 65537)
 	}
 	for _, n := range bigNs {
 		add := func(f func(i int) bool) {
